@@ -225,3 +225,74 @@ pub fn run_mask_ops(l: &[i128]) -> Vec<i128> {
     }
     vec![checked, bad, first[0], first[1], first[2], first[3]]
 }
+
+
+/// Partial coverage through the public API, in every colour space:
+/// args: colorspace mode hq r g b a  dr dg db da  shape width_milli
+///   shape 0: an anti-aliased stroke of a slanted line of the given width (0 = hairline, < 1000 = coverage-modulated
+///            hairline) over a 16 x 16 pixmap filled with the destination colour
+///   shape 1: an anti-aliased fill_rect with fractional left / right edges (the edge columns go through blit_v)
+/// The "fully drawn" value is the same paint drawn aliased over one destination pixel.
+/// -> [changed pixels, pixels with a channel outside [min(dst, full) - 2, max(dst, full) + 2], x, y, channel, got, dst, full]
+pub fn run_thin_cov(l: &[i128]) -> Vec<i128> {
+    if l.len() != 13 {
+        return vec![-3];
+    }
+    use tiny_skia::{ColorSpace, PathBuilder, Rect, Stroke, Transform, PremultipliedColorU8};
+    let cs = [ColorSpace::Linear, ColorSpace::Gamma2, ColorSpace::SimpleSRGB, ColorSpace::FullSRGBGamma][(l[0] as usize) % 4];
+    let mode = MODES[(l[1] as usize) % 29];
+    let dst = match PremultipliedColorU8::from_rgba(l[7] as u8, l[8] as u8, l[9] as u8, l[10] as u8) {
+        Some(c) => c,
+        None => return vec![-3],
+    };
+    let mut paint = Paint::default();
+    paint.set_color_rgba8(l[3] as u8, l[4] as u8, l[5] as u8, l[6] as u8);
+    paint.blend_mode = mode;
+    paint.colorspace = cs;
+    paint.force_hq_pipeline = l[2] != 0;
+    // fully drawn
+    let mut one = Pixmap::new(1, 1).unwrap();
+    one.pixels_mut()[0] = dst;
+    paint.anti_alias = false;
+    one.fill_rect(Rect::from_xywh(0.0, 0.0, 1.0, 1.0).unwrap(), &paint, Transform::identity(), None);
+    let full = one.pixels()[0];
+    // partially drawn
+    paint.anti_alias = true;
+    let mut pm = Pixmap::new(16, 16).unwrap();
+    for p in pm.pixels_mut() {
+        *p = dst;
+    }
+    if l[11] == 0 {
+        let mut pb = PathBuilder::new();
+        // one segment: at a joint of a hairline polyline the shared pixel is blended once per segment
+        pb.move_to(1.3, 2.1);
+        pb.line_to(14.2, 9.7);
+        let path = pb.finish().unwrap();
+        let stroke = Stroke { width: l[12] as f32 / 1000.0, ..Stroke::default() };
+        pm.stroke_path(&path, &paint, &stroke, Transform::identity(), None);
+    } else {
+        let fr = (l[12] as f32 / 1000.0).max(0.05).min(0.95);
+        pm.fill_rect(Rect::from_ltrb(2.0 + fr, 1.0, 12.0 + fr, 14.0).unwrap(), &paint, Transform::identity(), None);
+    }
+    let d = [dst.red(), dst.green(), dst.blue(), dst.alpha()];
+    let f_ = [full.red(), full.green(), full.blue(), full.alpha()];
+    let (mut changed, mut bad) = (0i128, 0i128);
+    let mut first = [-1i128; 6];
+    for (i, p) in pm.pixels().iter().enumerate() {
+        let v = [p.red(), p.green(), p.blue(), p.alpha()];
+        if v != d {
+            changed += 1;
+        }
+        for k in 0..4 {
+            let (lo, hi) = (d[k].min(f_[k]) as i128 - 2, d[k].max(f_[k]) as i128 + 2);
+            if (v[k] as i128) < lo || (v[k] as i128) > hi {
+                bad += 1;
+                if first[0] < 0 {
+                    first = [(i % 16) as i128, (i / 16) as i128, k as i128, v[k] as i128, d[k] as i128, f_[k] as i128];
+                }
+                break;
+            }
+        }
+    }
+    vec![changed, bad, first[0], first[1], first[2], first[3], first[4], first[5]]
+}
